@@ -7,8 +7,6 @@
 -/
 import Gotree.Lemmas.C20Topo
 import Gotree.Lemmas.C20Rose
-import Gotree.Lemmas.C20Table
-import Gotree.Gen.C20Sites
 import Gotree.Model.C20Seed
 
 namespace Gotree.C20
@@ -585,59 +583,5 @@ theorem seedFixed_iff (flag : Option Int) :
     · intro h'; simp at h'
     · intro h'; have := h' 0 1; simp at this
   · simp [h]
-
-/-! ## facts about the source, regenerated on every run (`harness/c20/extract.go` → `Gotree/Gen/C20Sites.lean`)
-
-   The model was written by reading cmd/sample.go, cmd/prune.go, tree/tree.go, tree/node.go and
-   tree/treegen.go.  What it took from them — which bound every `rand.Intn` has relative to its loop
-   counter, the comparison operators of the fill / store tests, the order of the option tests of
-   `prune`, which slices are swapped, what is appended to `edges`, the option defaults, the seed
-   sentinel — is extracted again from the working tree and re-decided here.  When the decision fails
-   the check still runs the fibre enumeration on the real code to look for a concrete biased input. -/
-
-/-- the extracted facts are the ones the model was written from (`tableOK`, Model/C20Table.lean) -/
-theorem sourceSitesCheck : tableOK Gotree.Gen.C20.sites Gotree.Gen.C20.options = true := by decide
-
-/-- what the extracted draw sites MEAN is the model's draw script: the single `Intn` of an iteration of
-    each reservoir / rotation loop, read from the source with the counter steps that precede it,
-    gives exactly `sampleCmdScript` (both modes), the script of `prune --random` and `rotScript` -/
-theorem source_scripts_as_model (k n : Nat) :
-    sampleCmdScript k false n
-      = resScript (scriptBound (drawsOf "totaltrees" (siteEvs Gotree.Gen.C20.sites "sample.noreplace") 0)) k n ∧
-    sampleCmdScript k true n
-      = (List.range n).flatMap (fun t => List.replicate k
-          (scriptBound (drawsOf "totaltrees" (siteEvs Gotree.Gen.C20.sites "sample.replace") 0) t)) ∧
-    (∀ t : T, pruneSelectionScript false false (k + 1) t.tipNames.length
-      = resScript (scriptBound (drawsOf "i" (siteEvs Gotree.Gen.C20.sites "randomTips") 0)) (k + 1) t.tipNames.length) ∧
-    rotScript n = (List.range n).map (scriptBound (drawsOf "i" (siteEvs Gotree.Gen.C20.sites "RotateNeighbors") 0)) := by
-  obtain ⟨h1, h2, h3, h4⟩ := tableOK_draws _ _ sourceSitesCheck
-  rw [h1, h2, h3, h4, scriptBound_counter]
-  refine ⟨?_, ?_, ?_, ?_⟩
-  · simp [sampleCmdScript]
-  · simp [sampleCmdScript, replScript]
-  · intro t; simp [pruneSelectionScript]
-  · simp [rotScript]
-
-/-- the option defaults of the model (`gotree sample` without `-n`, `gotree prune` without `--random`) are the
-    ones registered in the source -/
-theorem source_defaults :
-    optIs Gotree.Gen.C20.options "cmd/sample.go" "nbtrees" "Int" (toString sampleDefaultN) = true ∧
-    optIs Gotree.Gen.C20.options "cmd/prune.go" "random" "Int" (toString pruneDefaultRandom) = true ∧
-    (∀ (args : List String) (t : T) (d : List Nat), pruneSelection none none pruneDefaultRandom args t d = args) := by
-  refine ⟨by decide, by decide, ?_⟩
-  intro args t d
-  simp [pruneSelection, pruneDefaultRandom]
-
-/-- `Intn(len(edges))`: the appends of the source (one in the first iteration, one more when `rooted`,
-    two per grafted tip) give the bounds `2i-3` / `2i-2` of `utreeBounds` -/
-theorem source_utree_bounds (rooted : Bool) (n : Nat) :
-    utreeBounds rooted n = (List.range' 2 (n - 2)).map fun i =>
-      initAppends (siteEvs Gotree.Gen.C20.sites "RandomUniformBinaryTree") rooted
-        + graftAppends (siteEvs Gotree.Gen.C20.sites "RandomUniformBinaryTree") * (i - 2) := by
-  have h : initAppends (siteEvs Gotree.Gen.C20.sites "RandomUniformBinaryTree") false = 1 ∧
-      initAppends (siteEvs Gotree.Gen.C20.sites "RandomUniformBinaryTree") true = 2 ∧
-      graftAppends (siteEvs Gotree.Gen.C20.sites "RandomUniformBinaryTree") = 2 := by decide
-  rw [utreeBounds_eq]
-  cases rooted <;> simp [h.1, h.2.1, h.2.2]
 
 end Gotree.C20
